@@ -101,6 +101,8 @@ def c16_plan(tier, seed, known):
             "root consistency after a failed multi-write update is not demanded (the property promises error reporting and survival of earlier acknowledged updates)",
             "L2 timing (when sled's writer meets the failpoint) is not controlled; its oracle has only timing-independent clauses",
         ],
+        "simulated_time": ("storage stages: logical steps only (position of the failing / last write in the history); contended-reopen stage: "
+                           "simulated retry clock, see coverage.other_counters.simulated_ms"),
         "timeout_s": 3000 if thorough else 900,
     }
 
